@@ -41,9 +41,39 @@ structure Facts where
   mapRanges : List String
   /-- PathItem fields tested by `SafeParametersFor`, in source order -/
   paramsForMethods : List String
+  /-- control skeletons (calls, conditions, loops, returns; logging, verif hooks and the
+      `if err != nil { return err }` plumbing normalised to a trailing `!`) of the functions that
+      orchestrate Flatten, translated from the Go source by `harness/cmd/extract/skeleton.go` -/
+  skeletons : List (String × List String) := []
   deriving Repr
 
 namespace Facts
+
+/-- The orchestration of Flatten as the Lean pipeline was written after it.  Line by line:
+    `Flatten.flatten` = `Flatten` from `normalizeRef` on (`expand` is `spec.ExpandSpec` + `reload`, a
+    library call whose result the model starts from; `croak` only logs);
+    `Flatten.importReferences` = `importReferences` (one round, re-analysis, repeat until complete);
+    `Flatten.stripPointersAndOAIGen` + `Flatten.stripLoop` = `stripPointersAndOAIGen`;
+    `Flatten.removeUnused` = `removeUnused` (`RemoveUnused.removeUnused` iterates the single pass) followed
+    by the re-analysis the last pass ends with; `Flatten.removeUnusedShared` = `removeUnusedShared`. -/
+def flattenSkeletons : List (String × List String) := [
+  ("Flatten", ["opts.flattenContext = newContext()", "expand(&opts) !", "normalizeRef(&opts) !",
+               "if opts.RemoveUnused {", "  removeUnusedShared(&opts)", "}",
+               "importReferences(&opts) !",
+               "if !opts.Minimal && !opts.Expand {", "  nameInlinedSchemas(&opts) !", "}",
+               "stripPointersAndOAIGen(&opts) !",
+               "if opts.RemoveUnused {", "  removeUnused(&opts)", "}",
+               "opts.croak()", "return nil"]),
+  ("expand", ["spec.ExpandSpec(opts.Swagger(), opts.ExpandOpts(!opts.Expand)) !", "opts.Spec.reload()", "return nil"]),
+  ("importReferences", ["var ( imported bool err error )", "for !imported && err == nil {",
+                        "  imported, err = importExternalReferences(opts)", "  opts.Spec.reload()", "}", "return err"]),
+  ("stripPointersAndOAIGen", ["namePointers(opts) !", "hasIntroducedPointerOrInline, ers := stripOAIGen(opts) !",
+                              "for hasIntroducedPointerOrInline {",
+                              "  if !opts.Minimal {", "    opts.Spec.reload()", "    nameInlinedSchemas(opts) !", "  }",
+                              "  namePointers(opts) !", "  var err error",
+                              "  hasIntroducedPointerOrInline, err = stripOAIGen(opts) !", "}", "return nil"]),
+  ("removeUnused", ["for removeUnusedSinglePass(opts) {", "}"]),
+  ("removeUnusedShared", ["opts.Swagger().Parameters = nil", "opts.Swagger().Responses = nil", "opts.Spec.reload()"])]
 
 /-- the values the theorems need; `FactsOK` shows the regenerated ones agree up to order -/
 def reference : Facts where
@@ -65,5 +95,6 @@ def reference : Facts where
   uniqifyCaseInsensitive := true
   mapRanges := []
   paramsForMethods := ["get", "head", "options", "post", "patch", "put", "delete"]
+  skeletons := flattenSkeletons
 
 end Facts
